@@ -300,6 +300,7 @@ def work(payload, skip, report):
         _, alpha, prefix, length = payload
         alphabet = EXPR if alpha == "T" else EXPR_Q
         i = 0
+        ntimeouts = 0
         for rest in itertools.product(alphabet, repeat=length - len(prefix)):
             text = "{{#expr:" + " ".join(prefix + rest) + "}}"
             case = {"input": text}
@@ -309,6 +310,8 @@ def work(payload, skip, report):
                 continue
             report(i)
             i += 1
+            if ntimeouts >= 3:
+                continue   # the chunk already produced three hangs; the rest is not executed
             ctx.start_page("Tt")
             acc.case()
             try:
@@ -316,6 +319,7 @@ def work(payload, skip, report):
                     got = ctx.expand(text)
                 acc.distinct("cases", got)
             except Timeout:
+                ntimeouts += 1
                 acc.violation("returns_in_time:#expr", case, "no result within 5 s", "returns")
             except Exception as e:
                 acc.violation("expr_total:" + type(e).__name__, case, type(e).__name__ + ": " + str(e)[:100],
